@@ -71,21 +71,30 @@ func (b *baseCockpit) add(t *task.Task) {
 
 func (b *baseCockpit) remove(t *task.Task) {
 	b.mu.Lock()
-	defer b.mu.Unlock()
-
 	for k, v := range b.tasks {
 		if v == t {
 			b.tasks = append(b.tasks[:k], b.tasks[k+1:]...)
+			break
 		}
+	}
+	s := b.spinner
+	// the spinner takes its own lock and calls back into PreUpdate, which takes
+	// b.mu: it must not be touched while b.mu is held
+	b.mu.Unlock()
+
+	// a task that never started its output (skipped, or failed in a hook) has no
+	// spinner to report to
+	if s == nil {
+		return
 	}
 
 	var mark = aurora.Green("✔")
 	if t.Errored {
 		mark = aurora.Red("✗")
 	}
-	b.spinner.FinalMSG = fmt.Sprintf("%s Finished %s in %s\r\n", mark, aurora.Bold(t.Name), t.Duration())
-	b.spinner.Restart()
-	b.spinner.FinalMSG = ""
+	s.FinalMSG = fmt.Sprintf("%s Finished %s in %s\r\n", mark, aurora.Bold(t.Name), t.Duration())
+	s.Restart()
+	s.FinalMSG = ""
 }
 
 func newCockpitOutputWriter(t *task.Task, w io.Writer, close chan bool) *cockpitOutputDecorator {
